@@ -224,11 +224,22 @@ def check(prog, rep, tier):
                 if walked and _same_bucket(p, ("p", "idx_1"), ("p", "idx_2")):
                     seen_b.setdefault("idx_1", False)
                     seen_b.setdefault("idx_2", False)
+            if _same_bucket(p, ("p", "idx_1"), ("p", "idx_2")) and False in seen_b.values() and True not in seen_b.values():
+                # the two candidates are one and the same bucket here: examining it once is examining both
+                seen_b.setdefault("idx_1", False)
+                seen_b.setdefault("idx_2", False)
             if rv == C(None) and not (seen_b.get("idx_1") is False and seen_b.get("idx_2") is False):
                 rep.bad("C15.no-duplicate", f"{ctx}._check_if_present", f"absent after looking at {sorted(seen_b)}",
                         f"'not present' is concluded after examining only {sorted(k for k in seen_b)}: a fingerprint stored in the other candidate bucket is inserted again", cp.where())
                 okp = False
                 break
+            if rv[0] == "phi" and rv[1][0] == "cmp" and rv[1][1] in ("in", "notin") and rv[1][2] == fpp and rv[1][3] in B.values():
+                # return k if fingerprint in buckets[k] else None: the last bucket examined inside the return expression
+                k_ = [k for k, v in B.items() if v == rv[1][3]][0]
+                yes, no = (rv[2], rv[3]) if rv[1][1] == "in" else (rv[3], rv[2])
+                others_absent = all(seen_b.get(k) is False or _same_bucket(p, ("p", "idx_1"), ("p", "idx_2")) for k in B if k != k_)
+                if yes == ("p", k_) and no == C(None) and others_absent:
+                    continue
             if rv != C(None) and not (rv[0] == "p" and seen_b.get(rv[1]) is True):
                 rep.bad("C15.no-duplicate", f"{ctx}._check_if_present", f"returns {nshow(rv)}", "the reported bucket is not one in which the fingerprint was found", cp.where())
                 okp = False
